@@ -104,8 +104,8 @@ func runC14(r *Report) {
 			} else {
 				r.OK("C14/one-response", p.Name+":API.ServeHTTP", s3.pos(sm.Decl.Pos()), "")
 			}
-			if p.funcDecl("", "authMiddlewareOr") != nil {
-				if ok, why := recogniseOrCombinator(p); ok {
+			if rp.M.AuthOrFn != nil {
+				if ok, why := recogniseOrCombinator(p, rp.M); ok {
 					r.OK("C14/one-response", p.Name+":authMiddlewareOr", "", "")
 				} else {
 					r.Undecided("C14/one-response", p.Name+":authMiddlewareOr", "", why)
@@ -210,11 +210,10 @@ func (c *c14) idiom(fd *ast.FuncDecl, e ast.Expr) string {
 	info := c.info
 	rc := &rmCtx{p: c.p, info: info, recv: recvObj(info, fd)}
 	// G3: inside splitPath, whose whole body is recognised against its contract
-	if fd.Recv == nil && fd.Name.Name == "splitPath" {
+	if fd.Recv == nil && len(paramObjs(info, fd)) == 1 && fd.Type.Results != nil && len(fd.Type.Results.List) == 2 {
 		if ok, _ := recogniseSplitPath(c.p, fd); ok {
 			return "G3 splitPath: s[1:] under HasPrefix(s,\"/\"); s[:idx+1], s[idx+1:] with 0 <= idx = Index(s[1:],\"/\") < len(s)-1"
 		}
-		return ""
 	}
 	// G4: h = rt.F[i](h) inside the recognised reverse loop
 	if ix, ok := e.(*ast.IndexExpr); ok {
